@@ -9,7 +9,8 @@ Control flow (one definition per step of the Go code):
   `applyIn`   tool.go:111-141  ApplyDefaults, Validate, re-marshal
   decode      server.go:368-375 internaljson.Unmarshal(input, &in)
   handler     server.go:378-392 error ↦ tool error (plain) or protocol error (*jsonrpc.Error)
-  `outJson`   server.go:401-411 nil `any` ↦ nothing; typed nil pointer ↦ zero value of the element type
+  `outJson`   server.go:401-417 nil `any` ↦ nothing without an output schema, JSON null with one (F16
+                                repaired); typed nil pointer ↦ zero value of the element type
   `applyOut`  server.go:413-426 + tool.go:103-141 (forOutput): defaults on objects, `null` coerced to {}
                                 when the root type is "object", validate, re-marshal only if defaulted
   content     server.go:435-443 text fallback
@@ -104,9 +105,10 @@ def applyIn (E : Env S) (s : S) (a : Args) : Option JVal :=
   | none => none
   | some d => if E.valid s d then some d else none
 
-/-- server.go:401-411: the JSON the wrapper marshals for the handler's output, if any. -/
+/-- server.go:401-417: the JSON the wrapper marshals for the handler's output, if any. A nil `any` is
+skipped when no output schema is declared, and treated as JSON `null` when one is (F16 repaired). -/
 def outJson (t : Tool S) : OutVal → Option JVal
-  | .nilAny => none
+  | .nilAny => if t.outSchema.isSome then some .null else none
   | .nilPtr => some (t.elemZero.getD .null)
   | .json j => some j
 
